@@ -107,6 +107,14 @@ pub fn code_name(msg: &str) -> &'static str {
 
 pub fn err_obs(e: &Error) -> String {
     let text = e.to_string();
+    // the is_io / is_syntax / is_eof helpers say what classify() says
+    {
+        use lexpr::parse::error::Category;
+        let c = e.classify();
+        if (e.is_io(), e.is_syntax(), e.is_eof()) != (c == Category::Io, c == Category::Syntax, c == Category::Eof) {
+            return format!("HELPERS-DISAGREE is_io={} is_syntax={} is_eof={} classify={:?} ({})", e.is_io(), e.is_syntax(), e.is_eof(), c, text);
+        }
+    }
     match e.location() {
         Some(loc) => {
             let msg = match text.rfind(" at line ") {
